@@ -31,7 +31,9 @@
   ends with an ERROR instead of a clean end-of-stream (`AState`, `astep`): the copier whose source failed tells
   its destination that the stream is over exactly as after a clean end-of-stream, at once and not by the grace
   timer; a kernel-checked witness shows what a copier that skips `closeWriter` after a "closed connection"
-  error does instead.
+  error does instead.  Section M gives the step that opens the tunnel the request's close option as an input
+  (`stepReq`): under the code's rule it plays no part (finding F52, repaired: the 101 of an upgrade request that
+  also asked to close used to close the connection instead of opening the tunnel).
 
   Bytes used in the examples: 72 = 'H' (head), 82 = 'R' (reply head), payload bytes 1 … 9.
 -/
@@ -1492,6 +1494,63 @@ theorem c03_abort_without_errors_is_legs_machine {c : Cfg} {L : Legs} {pol : Err
 
 example : ∃ a h, arun exCfg exLegs .always (exSteps.map .s) = some a ∧ hrun exCfg exLegs .leave exSteps = some h ∧
     a.h = h ∧ a.closed = true ∧ a.expired = false := ⟨_, _, rfl, rfl, by decide⟩
+
+/-! ## M. The request's close option does not reach the tunnel
+
+An upgrade request may carry the `close` connection option next to `Upgrade` (`Connection: Upgrade, close`, any
+order, spelling, number of field lines) or be an HTTP/1.0 request: `http.ReadRequest` sets `req.Close`.  That is
+about the connection after the exchange; the response that opens a tunnel never closes it (`proxyConn.write`:
+`req.Method == CONNECT && 2xx || tunnel` ⇒ `res.Close = false`).  Finding F52 (repaired): only the CONNECT 2xx
+used to be exempt, the 101 went out with `Connection: close` and `tunnel` returned before `drainBuffer` and
+`bicopy`. -/
+
+/-- code-shaped 101 configuration: the transport reads the reply with a block reader and keeps its over-read -/
+def exUpCfg : Cfg :=
+  { headLen := 2, bufSize := 4, copyMax := 3, replyLen := 2, replyGran := 8, replyKeep := true }
+
+/-- upgrade head + 3 early bytes, 101 + 2 coalesced bytes, the tunnel is opened -/
+def exUpSteps : List Step :=
+  [.clientWrite [72, 72, 1, 2, 3], .readHead 3, .targetWrite [82, 82, 7, 8], .replyRead 4, .connected, .drain]
+
+/-- THE CLOSE OPTION IS IRRELEVANT: under the code's rule the machine that knows whether the request asked to
+    close (`reqClose`, also `p.closing()`) — on the 101 path and on the CONNECT path (`connect2xx`) — runs every
+    schedule exactly as the machine of sections A–L, so everything proved there holds of upgrade requests
+    with the close option and of HTTP/1.0 upgrade requests -/
+theorem c03_upgrade_close_option_irrelevant (c : Cfg) (reqClose connect2xx : Bool) (steps : List Step) :
+    runReq c .tunnelNeverCloses reqClose connect2xx steps = run c steps := by
+  have hstep : ∀ (s : State) (st : Step), stepReq c .tunnelNeverCloses reqClose connect2xx s st = step c s st := by
+    intro s st
+    cases st <;> try rfl
+    by_cases h : s.phase = .replied <;> simp [stepReq, headCloses, ClosePolicy.exempt, step, h]
+  have hrun : ∀ (steps : List Step) (s : State),
+      runReqFrom c .tunnelNeverCloses reqClose connect2xx s steps = runFrom c s steps := by
+    intro steps
+    induction steps with
+    | nil => intro s; rfl
+    | cons st rest ih =>
+      intro s
+      simp only [runReqFrom, runFrom, hstep]
+      cases step c s st with
+      | none => rfl
+      | some s' => exact ih s'
+  exact hrun steps init
+
+example : ∃ s, runReq exUpCfg .tunnelNeverCloses true false exUpSteps = some s ∧ s.phase = .tunnel ∧
+    s.up.delivered = [1, 2, 3] ∧ s.down.held = [7, 8] := ⟨_, rfl, by decide, by decide, by decide⟩
+
+/-- WHY THE RULE IS NEEDED (the behaviour before the repair of F52): with only the CONNECT 2xx exempt, the same
+    schedule of an upgrade request that asks to close ends closed at the moment the tunnel should be opened —
+    the early bytes the request reader holds and the bytes that came with the 101 are delivered to nobody —,
+    while the request that does not ask to close is tunnelled -/
+theorem c03_upgrade_close_option_pre_repair_witness :
+    (∃ s, runReq exUpCfg .connectOnly true false exUpSteps = some s ∧ s.phase = .closed ∧
+      s.closedC = true ∧ s.closedT = true ∧ s.up.delivered = [] ∧ s.down.delivered = [] ∧
+      stream exUpCfg s .up = [1, 2, 3] ∧ stream exUpCfg s .down = [7, 8]) ∧
+    (∃ s, runReq exUpCfg .connectOnly false false exUpSteps = some s ∧ s.phase = .tunnel ∧
+      s.up.delivered = [1, 2, 3]) ∧
+    runReq exUpCfg .connectOnly true true exUpSteps = run exUpCfg exUpSteps :=
+  ⟨⟨_, rfl, by decide, by decide, by decide, by decide, by decide, by decide, by decide⟩,
+   ⟨_, rfl, by decide, by decide⟩, by decide⟩
 
 end C03
 end FwdVerif
